@@ -420,6 +420,9 @@ def check_property(prop, tier, units, specs, rebaseline=False, only_unit=None, s
                                    solver_s=round(t_us / 1e6, 3), clauses=nclauses, backend="verus/z3"))
             if und and not fails:
                 undecided.append("%s: %s" % (q, und))
+            for cid_, cprops_ in oc.asm.lost_claims.get(q, []):
+                if via_call or not cprops_ or prop in cprops_.split(","):
+                    undecided.append("%s: claim %s cannot be placed (its anchored statement is no longer in the body)" % (q, cid_))
             for fl in fails:
                 oid = obligation_id(q, fl)
                 in_base = base is not None and q in base.get("verified", [])
@@ -438,6 +441,12 @@ def check_property(prop, tier, units, specs, rebaseline=False, only_unit=None, s
                     undecided.append("%s: obligation %s fails but the function is not in the committed baseline of discharged obligations" % (q, oid))
                 else:
                     violations.append((u.name, q, oid, fl))
+        # undecided entries that belong to no function of the inventory (a failure located in prelude / generated text, an unclassified
+        # diagnostic of the unit ...) must surface too: nothing the verifier said may disappear
+        inv_names = set(inv_["qname"] for inv_ in oc.asm.inventory)
+        for q_, why_ in oc.undecided.items():
+            if q_ not in inv_names:
+                undecided.append("%s: %s" % (q_, why_))
         for t in oc.asm.trusted:
             if t not in trusted:
                 trusted.append(t)
